@@ -120,12 +120,13 @@ def union(m1, m2):
 
 def random_seed_mesh(rng, size):
     """size: 'tiny' | 'mid' | 'big'"""
-    kinds = ["tri", "quad", "poly", "tetra", "octa", "cube", "grid", "trigrid", "annulus", "torus", "union"]
     if size == "tiny":
         k = rng.choice(["tri", "quad", "poly", "tetra", "grid", "trigrid", "union", "octa"])
+    elif size == "mid":
+        k = rng.choice(["octa", "cube", "grid", "trigrid", "annulus", "torus", "union", "grid", "trigrid"])
     else:
-        k = rng.choice(kinds)
-    lim = {"tiny": 3, "mid": 6, "big": 11}[size]
+        k = rng.choice(["grid", "trigrid", "annulus", "torus", "union"])
+    lo, hi = {"tiny": (2, 3), "mid": (3, 6), "big": (5, 9)}[size]
     if k == "tri":
         return "tri", seed_polygon(3)
     if k == "quad":
@@ -139,15 +140,15 @@ def random_seed_mesh(rng, size):
     if k == "cube":
         return k, seed_cube()
     if k == "grid":
-        return k, seed_grid(rng.randint(2, lim), rng.randint(2, lim))
+        return k, seed_grid(rng.randint(lo, hi + 1), rng.randint(lo, hi + 1))
     if k == "trigrid":
-        return k, seed_grid(rng.randint(2, lim), rng.randint(2, lim), tri=True, rng=rng)
+        return k, seed_grid(rng.randint(lo, hi), rng.randint(lo, hi), tri=True, rng=rng)
     if k == "annulus":
-        return k, seed_grid(rng.randint(3, max(3, lim)), rng.randint(2, lim), wrap_i=True, tri=rng.random() < 0.5, rng=rng)
+        return k, seed_grid(rng.randint(max(3, lo), max(3, hi)), rng.randint(lo, hi), wrap_i=True, tri=rng.random() < 0.5, rng=rng)
     if k == "torus":
-        return k, seed_grid(rng.randint(3, max(3, lim)), rng.randint(3, max(3, lim)), wrap_i=True, wrap_j=True,
+        return k, seed_grid(rng.randint(max(3, lo), max(3, hi)), rng.randint(max(3, lo), max(3, hi)), wrap_i=True, wrap_j=True,
                             tri=rng.random() < 0.5, rng=rng)
-    a = random_seed_mesh(rng, "tiny")[1]
+    a = random_seed_mesh(rng, "tiny" if size != "big" else "mid")[1]
     b = random_seed_mesh(rng, "tiny" if size == "tiny" else "mid")[1]
     return "union", union(a, b)
 
@@ -268,13 +269,15 @@ def finalize(rng, nv, faces):
 
 
 def gen_mesh(rng, size=None, max_faces=80):
-    """Returns (mesh, info)."""
+    """Returns (mesh, info).  Size profile: 40 % tiny (1-9 faces), 50 % mid (10..max_faces), 10 % big (max_faces/2..max_faces)."""
     if size is None:
         r = rng.random()
         size = "tiny" if r < 0.4 else ("mid" if r < 0.9 else "big")
-    while True:
+    lo_f = {"tiny": 1, "mid": 10, "big": max(10, max_faces // 2)}[size]
+    hi_f = 9 if size == "tiny" else max_faces
+    for _ in range(200):
         kind, (nv, faces) = random_seed_mesh(rng, size)
-        if len(faces) <= max_faces:
+        if len(faces) <= hi_f:
             break
     faces = [list(F) for F in faces]
     assert validate(nv, faces) is None, (kind, nv, faces, validate(nv, faces))
@@ -283,13 +286,26 @@ def gen_mesh(rng, size=None, max_faces=80):
     names = [e[0] for e in EDITS]
     fns = {e[0]: e[1] for e in EDITS}
     wts = [e[2] for e in EDITS]
+    tries = 0
+    # keep growing (1->3 splits, ears) until the lower size bound is met, then apply the random edits
+    while len(faces) < lo_f and tries < 400:
+        tries += 1
+        nm = rng.choice(["split13", "ear", "split13", "edge_split"])
+        r = fns[nm](rng, nv, faces)
+        if r is None:
+            continue
+        nv2, f2 = r
+        if len(f2) > hi_f or validate(nv2, f2) is not None:
+            continue
+        nv, faces = nv2, [list(F) for F in f2]
+        applied.append(nm)
     for _ in range(n_ed):
         nm = rng.choices(names, wts)[0]
         r = fns[nm](rng, nv, faces)
         if r is None:
             continue
         nv2, f2 = r
-        if not f2 or len(f2) > max_faces or validate(nv2, f2) is not None:
+        if not f2 or len(f2) > hi_f or validate(nv2, f2) is not None:
             continue
         nv, faces = nv2, [list(F) for F in f2]
         applied.append(nm)
